@@ -25,6 +25,8 @@ def act (d : DSt) (a : Act) : DSt :=
 
 def threads : List Nat := [1, 2, 3, 4, 5, 6]
 
+def acts18 (d : DSt) (as : List Act) : DSt := as.foldl act d
+
 def render (d : DSt) : String :=
   let s := d.s
   -- two live instances that sit on different wait slots come from the dropped slot; otherwise
@@ -116,6 +118,20 @@ def stepLine (d : DSt) (line : String) : DSt × String :=
       if t < 1 || t > 6 then (d, "bad-op") else
       let (d', msg) := goThread d t
       if msg == "skip" || msg == "busy" then (d', msg) else (d', s!"go {t} {msg} {render d'}")
+  | ["burst", ns] =>
+    match ns.toNat? with
+    | none => (d, "skip")
+    | some n =>
+      if n < 2 || n > 64 || d.s.nextSlot != 0 || d.s.nextInst != 0 then (d, "skip") else
+      -- whatever the interleaving, `summon_mutex` leaves one instance; one sequential schedule for the state
+      let d := (List.range n).foldl (fun d i =>
+        let t := 1 + i % 6
+        let d := { d with s := { d.s with thr := fun y => if y = t then ⟨.idle, 0⟩ else d.s.thr y } }
+        let d := acts18 d [.lookup t, .enter t, .bodyGet t, .bodyCreate t, .bodyStore t, .leaveUnready t, .leaveDec t, .leaveDel t]
+        d) d
+      let slotleft := if d.cfg.refCounted then d.s.slotMap.isSome else true
+      (d, s!"burst {n} ok errors=0 made={d.s.nextInst} mapped={d.s.swampMap.isSome} slotleft={slotleft}" ++
+          (if d.s.live.length > 1 then "\t#F:C18-slot-dropped-while-in-use" else ""))
   | ["cancel", ts] =>
     match ts.toNat? with
     | none => (d, "skip")
